@@ -71,13 +71,13 @@ class AdaptationSet(ObjectWithFields):
             'mimeType': content_type_to_mime_type(
                 self.content_type, kwargs.get('codecs', None)),
             'fileSuffix': content_type_file_suffix(self.content_type),
+            'startWithSAP': 1,
         }
         if self.content_type == 'audio':
             defaults['lang'] = 'und'
             defaults['role'] = 'main'
             defaults['numChannels'] = 2
         elif self.content_type == 'video':
-            defaults['startWithSAP'] = 1
             defaults['par'] = "16:9"
         elif self.content_type == 'text':
             defaults['lang'] = 'und'
